@@ -12,6 +12,7 @@ CONSTANTS
   Filts = {"none", "server"}
   Ops = {"pub", "rem", "exp", "sexp", "clear", "refresh", "poscheck"}
   MaxJumps = 1
+  EpochCheck = TRUE
   Pres = {2}
   N0s = {2}
   Contig = TRUE
